@@ -2,7 +2,9 @@ mod gen;
 mod net;
 mod oracle;
 mod rng;
+mod sched;
 mod seq;
+mod stress;
 mod server;
 mod stream;
 mod sut;
@@ -125,6 +127,71 @@ fn main() {
             r.nontrivial = scripts.len() as u64;
             r.extra = format!(",\"cases\":{},\"endings\":{{{}}}", scripts.len(), e.join(","));
             r.write(&out, "server", &profile, seed);
+        }
+        "sched" => {
+            let per_case: usize = get("per_case", "60").parse().unwrap();
+            let (ops, outs, viols, st) = if let Some(f) = m.get("ops") {
+                // replay literal lines (corpus witnesses, replay files), with the same oracle
+                let txt = std::fs::read_to_string(f).expect("ops file");
+                let mut r = sched::SchedRunner::new();
+                let mut ops = vec![];
+                let mut outs = vec![];
+                let mut viols: Vec<(usize, usize, Vec<&'static str>, String)> = vec![];
+                let mut start = 0usize;
+                let mut n = 0u64;
+                for l in txt.lines().filter(|l| !l.trim().is_empty()) {
+                    let l = l.trim();
+                    if l.starts_with("cnew") {
+                        start = ops.len();
+                    }
+                    let setup = r.setup.clone();
+                    let programs = r.programs.clone();
+                    let (o, outcome) = r.exec(l);
+                    ops.push(l.to_string());
+                    outs.push(o);
+                    if let Some(outcome) = outcome {
+                        n += 1;
+                        if let Some(h) = &outcome.hung {
+                            viols.push((start, ops.len(), vec!["C16"], h.clone()));
+                            break;
+                        }
+                        let case = sched::Case { init: "expired", setup: setup.clone(), programs: programs.clone() };
+                        if !sched::linearizable(&case, &|| sched::apply_setup(&setup), &outcome) {
+                            let ws = sched::windows(&outcome.steps, &programs);
+                            let only_c03 = programs.iter().flatten().all(|f| matches!(f[1], 0x00 | 0x01 | 0x04));
+                            viols.push((start, ops.len(), if only_c03 { vec!["C03", "C04"] } else { vec!["C04"] },
+                                format!("not linearizable: calls {:?} -> {} ; classes [{}]", outcome.steps, sched::fmt_results(&outcome.results), ws.join(","))));
+                        }
+                    }
+                }
+                (ops, outs, viols, sched::SchedStats { cases: n, schedules: n, nonlinearizable_known: Default::default(), distinct_outcomes: Default::default(), samples: vec![] })
+            } else {
+                sched::run_suite(&profile, seed, count, per_case)
+            };
+            std::fs::write(format!("{}/ops.txt", out), ops.join("\n") + "\n").unwrap();
+            std::fs::write(format!("{}/impl.txt", out), outs.join("\n") + "\n").unwrap();
+            let mut o = String::new();
+            for (a, b, props, msg) in &viols {
+                o.push_str(&format!("VIOL props={} start={} end={} line={} msg={}\n", props.join(","), a, b, b - 1, msg));
+            }
+            std::fs::write(format!("{}/oracle.txt", out), o).unwrap();
+            let kn: Vec<String> = st.nonlinearizable_known.iter().map(|(k, v)| format!("\"{}\":{}", k, v)).collect();
+            let samples: Vec<String> = st.samples.iter().map(|s| format!("\"{}\"", s.replace('"', "'"))).collect();
+            std::fs::write(format!("{}/stats.json", out), format!("{{\"suite\":\"sched\",\"profile\":\"{}\",\"seed\":{},\"programs\":{},\"cases\":{},\"lines\":{},\"distinct_nontrivial\":{},\"nonlinearizable_by_window\":{{{}}},\"oracle_violations\":{},\"stream_samples\":[{}]}}\n", profile, seed, st.cases, st.schedules, ops.len(), st.distinct_outcomes.len(), kn.join(","), viols.len(), samples.join(","))).unwrap();
+        }
+        "stress" => {
+            // watchdog: the whole suite must finish; a hang leaves the trace for the check script
+            if let Some(mut f) = trace() { use std::io::Write; let _ = writeln!(f, "stress seed {} rounds {}", seed, count); }
+            let o = stress::run(seed, count);
+            std::fs::write(format!("{}/ops.txt", out), format!("stress {} {}\n", seed, count)).unwrap();
+            std::fs::write(format!("{}/impl.txt", out), "ok\n").unwrap();
+            let mut v = String::new();
+            for (props, msg) in &o.violations {
+                v.push_str(&format!("VIOL props={} start=0 end=1 line=0 msg={}\n", props.join(","), msg));
+            }
+            std::fs::write(format!("{}/oracle.txt", out), v).unwrap();
+            let kinds: Vec<String> = o.kinds.iter().map(|(k, n)| format!("\"{}\":{}", k, n)).collect();
+            std::fs::write(format!("{}/stats.json", out), format!("{{\"suite\":\"stress\",\"profile\":\"{}\",\"seed\":{},\"programs\":{},\"cases\":{},\"lines\":1,\"distinct_nontrivial\":{},\"round_kinds\":{{{}}},\"oracle_violations\":{}}}\n", profile, seed, o.rounds, o.rounds, o.kinds.len(), kinds.join(","), o.violations.len())).unwrap();
         }
         "grid" => {
             let mut r = seq::Runner::new();
